@@ -42,6 +42,7 @@ type Case struct {
 	NfExpiry int64   `json:"nfexpiry"` // ns; <= 0: option not given
 	Rows     [][]int `json:"rows"`     // initial database rows [pk,u,v]
 	Ops      [][]any `json:"ops"`
+	Hole     string  `json:"hole"`    // cache.notFoundPlaceholder as extracted from the sources
 	Readers  int     `json:"readers"` // kind conc
 	Present  bool    `json:"present"` // kind conc
 }
@@ -89,6 +90,7 @@ type Row struct {
 var errDB = errors.New("verif: database down")
 
 type fakeDB struct {
+	mid   int // >= 0: the next query first takes this cache node down (mid-operation outage)
 	mu    sync.Mutex
 	rows  map[int]Row
 	fault bool
@@ -100,6 +102,11 @@ type fakeDB struct {
 }
 
 func (d *fakeDB) enter() {
+	if d.mid >= 0 {
+		servers[d.mid].SetError("ERR verif outage")
+		faulted[d.mid] = true
+		d.mid = -1
+	}
 	n := atomic.AddInt32(&d.inq, 1)
 	for {
 		m := atomic.LoadInt32(&d.maxq)
@@ -189,6 +196,9 @@ var (
 	tk      = &ticker{c: make(chan time.Time)}
 	wheel   *collection.TimingWheel
 	faulted [2]bool
+	closed  [2]bool // connection loss (miniredis Close / Restart)
+	lostOps [2]int
+	hole    = "*"
 )
 
 const sentinel = "verif-c06-sentinel"
@@ -218,6 +228,10 @@ func settle() bool {
 // accepted commands (the outage is lifted for them and put back).
 func pad() {
 	for n := 0; n < 2; n++ {
+		if closed[n] {
+			lostOps[n]++
+			continue
+		}
 		if !faulted[n] {
 			continue
 		}
@@ -274,7 +288,7 @@ func dump(nodes int) []Entry {
 			switch {
 			case err != nil:
 				e.T = "raw"
-			case val == "*":
+			case val == hole:
 				e.T = "hole"
 			case strings.HasPrefix(val, "{") && json.Unmarshal([]byte(val), &r) == nil &&
 				k == "p"+strconv.Itoa(r.Pk):
@@ -309,8 +323,24 @@ func newConn(c Case, db *fakeDB) sqlc.CachedConn {
 	return sqlc.NewConn(nil, conf, opts...)
 }
 
+func reopen(n int) {
+	if !closed[n] {
+		return
+	}
+	if err := servers[n].Restart(); err != nil {
+		hx.Fatal("miniredis restart: %v", err)
+	}
+	closed[n] = false
+	// stale pooled connections fail once and are retried by go-redis; then feed the breaker
+	for i := 0; i < 8*lostOps[n]+24; i++ {
+		padders[n].ExistsCtx(context.Background(), "verif-pad")
+	}
+	lostOps[n] = 0
+}
+
 func reset() {
 	for n := 0; n < 2; n++ {
+		reopen(n)
 		servers[n].SetError("")
 		servers[n].FlushAll()
 		faulted[n] = false
@@ -325,7 +355,7 @@ var nodeCache = map[string]int{}
 func probe(cc sqlc.CachedConn, nodes int) map[string]int {
 	res := map[string]int{}
 	for _, pre := range []string{"p", "u"} {
-		for i := 0; i < 8; i++ {
+		for i := 0; i < 12; i++ {
 			k := pre + strconv.Itoa(i)
 			if nodes == 1 {
 				res[k] = 0
@@ -363,7 +393,10 @@ func keysOf(v any) []string {
 func runSeq(c Case) Out {
 	out := Out{ID: c.ID}
 	reset()
-	db := &fakeDB{rows: map[int]Row{}}
+	db := &fakeDB{rows: map[int]Row{}, mid: -1}
+	if c.Hole != "" {
+		hole = c.Hole
+	}
 	for _, r := range c.Rows {
 		db.rows[r[0]] = Row{r[0], r[1], r[2]}
 	}
@@ -377,7 +410,12 @@ func runSeq(c Case) Out {
 		var row Row
 		var err error
 		isRead := false
-		switch op[0].(string) {
+		kind := op[0].(string)
+		if kind == "takemid" || kind == "qrimid" {
+			db.mid = num(op[2])
+			kind = kind[:len(kind)-3]
+		}
+		switch kind {
 		case "take":
 			p := num(op[1])
 			isRead = true
@@ -432,6 +470,16 @@ func runSeq(c Case) Out {
 			}
 		case "dbfault":
 			db.fault = num(op[1]) != 0
+		case "cclose":
+			n := num(op[1])
+			if num(op[2]) != 0 {
+				if !closed[n] {
+					servers[n].Close()
+					closed[n] = true
+				}
+			} else {
+				reopen(n)
+			}
 		case "cfault":
 			n := num(op[1])
 			faulted[n] = num(op[2]) != 0
@@ -459,10 +507,11 @@ func runSeq(c Case) Out {
 			out.Err = "unknown op " + op[0].(string)
 			return out
 		}
-		switch op[0].(string) {
+		db.mid = -1
+		switch kind {
 		case "exec", "del":
 			// AddCleanTask hands the timer to the wheel's loop synchronously (unbuffered channel)
-			if faulted[0] || faulted[1] {
+			if faulted[0] || faulted[1] || closed[0] || closed[1] {
 				delFailed = true
 			}
 		}
@@ -483,7 +532,7 @@ func runSeq(c Case) Out {
 func runConc(c Case) Out {
 	out := Out{ID: c.ID}
 	reset()
-	db := &fakeDB{rows: map[int]Row{}, gate: make(chan struct{})}
+	db := &fakeDB{rows: map[int]Row{}, gate: make(chan struct{}), mid: -1}
 	if c.Present {
 		db.rows[1] = Row{1, 7, 42}
 	}
